@@ -7,11 +7,12 @@ import time
 from framework.checklib import CorrResult
 from framework import coqrun
 from harness import funccorr as fc
-from translator import t11_truth_table
+from translator import t9_circuit_core, t10_circuit_algos, t11_truth_table, t25_circuit_proto
 
 ID = 'C12'
 CORPUS = pathlib.Path(__file__).resolve().parent.parent / 'harness' / 'corpus' / 'C12'
-TRANSLATORS = [t11_truth_table.translate]
+TRANSLATORS = [t9_circuit_core.translate, t10_circuit_algos.translate, t11_truth_table.translate,
+               t25_circuit_proto.translate]
 PROPERTY_FILE = 'Properties/C12.v'
 THEOREMS = ['C12_product_is_canonical_order', 'C12_fixed_sum_iterator', 'C12_fixed_sum_iterator_no_negations',
             'C12_symmetric_iff_constant_on_weight_classes', 'C12_monotone_is_sorted_row',
@@ -24,7 +25,8 @@ THEOREMS = ['C12_product_is_canonical_order', 'C12_fixed_sum_iterator', 'C12_fix
             'C12_canonical_index_to_input', 'C12_from_int_unary_func', 'C12_from_int_binary_func',
             'C12_pyfunction_constructor', 'C12_from_int_unary_func_sizes', 'C12_from_int_binary_func_sizes',
             'C12_memoised_circuit_queries', 'C12_example_represented',
-            'C12_truth_table_regenerated', 'C12_truth_table_regenerated_define_applies']
+            'C12_truth_table_regenerated', 'C12_truth_table_regenerated_define_applies',
+            'C12_circuit_protocol_regenerated', 'C12_circuit_protocol_corner']
 PARTIAL = {}
 LEVEL_TEXT = ('for every Boolean function f with arities n, m >= 1 and every query of the protocol with index arguments '
               'inside the arities, the modelled code of Circuit, TruthTable and PyFunction (three different algorithms '
@@ -45,16 +47,31 @@ LEVEL_NOTE = ('Coq kernel + vm_compute; hand-written model of the code repaired 
               'from the source on every check, and C12_truth_table_regenerated proves each regenerated definition '
               'equal to the hand-model function (index / size arguments naturals; define: table of valid shape); '
               'trusted there: the translator and its prelude of Python primitives (list / str / int operations, '
-              'math.log2 as floor + exactness flag). Not regenerated for C12: the protocol methods of Circuit '
-              '(Circuit.evaluate / get_truth_table are, by T10, for C01), the static factories of PyFunction '
+              'math.log2 as floor + exactness flag). Translator T25 (T11\'s statement machinery on the circuit state of '
+              'T9 / T10, whose gen_evaluate / gen_evaluate_at / gen_input_size it calls) regenerates the protocol '
+              'methods of Circuit - output_size, index_of_output, is_constant(_at), is_monotone(_at), '
+              'is_symmetric(_at), is_dependent_on_input_at, is_output_equal_to_input(_negation), '
+              'get_significant_inputs_of, find_negations_to_make_symmetric - and C12_circuit_protocol_regenerated '
+              'proves each equal to the function run_query dispatches to for the Circuit class (g_* / circ_* on '
+              'circ_rep c) for every circuit with fuel_ok c: T10\'s evaluators equal the model\'s (the model does not run out '
+              'of fuel on Boolean vectors, or no gate is its own operand; kernel-checked example of the difference '
+              'outside); proved to hold whenever the circuit computes a function (circuit_computes, the hypothesis of '
+              'the query theorems) and for every WF circuit. The generated code carries GateStates (tp.cast is the '
+              'identity) where the hand model converts to bools and would report an Undefined as GateStateError: '
+              'proved unobservable - for EVERY circuit no Undefined comes out of a Boolean input vector. The fuel '
+              'parameters are those of the model\'s evaluators (Python has none); index_of_output is specified '
+              'directly (first index). Circuit.evaluate / evaluate_at / get_truth_table are regenerated by T10 '
+              '(C02), gates_number by T16 (C16). Not regenerated for C12: the static factories of PyFunction '
               '(from_positional, from_int_*_func) and PyFunctionModel.define (they build closures). Hypotheses of the query theorems: the circuit computes f through Circuit.evaluate/evaluate_at '
               '(that evaluate is the netlist semantics is C01), the callable computes f, the table is the table of f; '
               'm >= 1 (a TruthTable with no output cannot be constructed). "monotone" is the protocol\'s documented '
               'notion (output sequence in enumeration order non-decreasing / non-increasing), NOT lattice monotonicity. '
               'Exception kinds for out-of-range index arguments, wrong-length input vectors, malformed definitions and '
               'the constructors are covered by the correspondence only.')
-TECHNIQUE = ('fail-closed ast translation of truth_table.py / utils.py to Gallina (loops with break / return as '
-             'a control-flow fold, generators as lists, objects as records) proved equal to the hand model; '
+TECHNIQUE = ('fail-closed ast translation of truth_table.py / utils.py / python_function.py and of the protocol methods '
+             'of circuit.py to Gallina (loops with break / return as a control-flow fold, generators as lists, objects '
+             'as records, in-place lists as rebinding; the Circuit methods on the state of T9 / T10 with GateState '
+             'values) proved equal to the hand model (loop lemmas generic in the body, instantiated by unification); '
              'Coq proof: enumeration lemmas (itertools.product order = big-endian index bijection; combinations <-> '
              'weight classes; zip(*rows) of a rectangular matrix), each Python loop with early exit shown equal to a '
              'pure fold over a total evaluator, the three monotonicity loops shown to decide StronglySorted of the '
